@@ -500,6 +500,23 @@ func (c *Ctx) callbackFunc(f *FuncInfo, e ast.Expr) (*FuncInfo, map[types.Object
 		// a method value on a local whose only definition is a composite literal (`w := &T{o, hdrs}` ... `w.replace`): the
 		// method sees the literal's elements through its receiver's fields
 		if se, isSel := e.(*ast.SelectorExpr); isSel {
+			// a method value on a conversion of a local (`moved(hdrs).restore`, or `m := moved(hdrs)` ... `m.restore`): the
+			// method sees the local through its receiver
+			conv := ast.Unparen(se.X)
+			if lv, ok := objOfIdent(info, conv).(*types.Var); ok && !lv.IsField() {
+				if def := singleDefExpr(f, lv); def != nil {
+					conv = ast.Unparen(def)
+				}
+			}
+			if call, ok := conv.(*ast.CallExpr); ok && len(call.Args) == 1 {
+				if tv, ok := info.Types[call.Fun]; ok && tv.IsType() {
+					if g := c.byObj[fn]; g != nil {
+						if rv := receiverVar(g); rv != nil {
+							return g, map[types.Object]ast.Expr{rv: call.Args[0]}
+						}
+					}
+				}
+			}
 			if lv, ok := objOfIdent(info, se.X).(*types.Var); ok && !lv.IsField() {
 				if def := singleDefExpr(f, lv); def != nil {
 					d := ast.Unparen(def)
